@@ -21,6 +21,12 @@ import (
 //   cR<i>  closer i waits for the wait group and returns (released from close:wait)
 //   wA<j>  command j is delivered to its connection: admission, then the handler parks at handler:start
 //   wF<j>  the handler of command j runs to completion
+//   wP<j>  command j is delivered and its admission is HELD inside `admit`, right after the closing
+//          check (schedule point admit:checked; in the library this is inside the critical section)
+//   wG<j>  the held admission goes on: the handler parks at handler:start
+//   cT<i>  closer i tries to return now (cT<i>:ret) - or cannot yet (cT<i>:no), which is no error
+// A closer started (cS) while an admission is held cannot enter its critical section: cS<i>:blk;
+// it completes by itself as soon as the admission is let go.
 // Result events: one token per action (cS0, cR0:ret, wA0:adm|ref|lost, wF0) and
 // viol=<list> for violations observed directly on the real code.
 
@@ -44,6 +50,7 @@ type closeCtl struct {
 	returns int // Close calls returned
 	viol    []string
 	pendingConn int // connection whose goroutine is expected to show up next (-1: none)
+	holdChecked map[string]bool // roles whose admission is to be held at admit:checked
 }
 
 func (c *closeCtl) hook(point string) {
@@ -88,10 +95,15 @@ func (c *closeCtl) hook(point string) {
 		c.cond.Broadcast()
 		return
 	case "close:enter", "close:wait":
+	case "admit:checked":
+		if !c.holdChecked[role] {
+			return
+		}
+		delete(c.holdChecked, role)
 	default:
-		return // points inside the critical sections are never parked at
+		return // other points inside the critical sections are never parked at
 	}
-	if point == "handler:start" || point == "close:enter" || point == "close:wait" {
+	if point == "handler:start" || point == "close:enter" || point == "close:wait" || point == "admit:checked" {
 		c.parked[role] = point
 		c.cond.Broadcast()
 		for c.release[role] != point {
@@ -103,7 +115,11 @@ func (c *closeCtl) hook(point string) {
 }
 
 func (c *closeCtl) waitParked(role string, points ...string) (string, bool) {
-	deadline := time.Now().Add(1500 * time.Millisecond)
+	return c.waitParkedFor(1500*time.Millisecond, role, points...)
+}
+
+func (c *closeCtl) waitParkedFor(d time.Duration, role string, points ...string) (string, bool) {
+	deadline := time.Now().Add(d)
 	c.mu.Lock()
 	defer c.mu.Unlock()
 	for {
@@ -146,7 +162,7 @@ func runClose(cs *Case) *Result {
 			}
 		}
 	}
-	ctl := &closeCtl{role: map[int64]string{}, parked: map[string]string{}, release: map[string]string{}, pendingConn: -1}
+	ctl := &closeCtl{role: map[int64]string{}, parked: map[string]string{}, release: map[string]string{}, pendingConn: -1, holdChecked: map[string]bool{}}
 	ctl.cond = sync.NewCond(&ctl.mu)
 	hook := ctl.hook
 	wire.VerifHook.Store(&hook)
@@ -202,6 +218,31 @@ func runClose(cs *Case) *Result {
 	}
 	var ev []string
 	hang := false
+	held := map[string]bool{} // worker roles held at admit:checked
+	var blocked []string     // closers waiting for the mutex meanwhile
+	deliver := func(idx int) (string, int) {
+		cm := cmds[idx]
+		role := "w" + strconv.Itoa(cm.conn)
+		ctl.mu.Lock()
+		ctl.pendingConn = cm.conn
+		ctl.mu.Unlock()
+		var msg []byte
+		switch cm.kind {
+		case "q":
+			msg = msgQuery(probeQuery("c"+strconv.Itoa(idx), 0))
+		case "p":
+			msg = msgParse("", "!B"+hxs("no"), nil)
+		case "b":
+			msg = msgBind("", "", nil, nil, nil)
+		case "s":
+			msg = msgSync()
+		}
+		conns[cm.conn].mu.Lock()
+		conns[cm.conn].segs = append(conns[cm.conn].segs, msg)
+		conns[cm.conn].cond.Broadcast()
+		conns[cm.conn].mu.Unlock()
+		return role, cm.conn
+	}
 	for _, a := range strings.Split(cs.Extra["sched"], ",") {
 		if a == "" || hang {
 			continue
@@ -211,12 +252,37 @@ func runClose(cs *Case) *Result {
 		case "cS":
 			role := "c" + strconv.Itoa(idx)
 			ctl.let(role, "close:enter")
-			if _, ok := ctl.waitParked(role, "close:wait", "returned"); !ok {
+			wait := 1500 * time.Millisecond
+			if len(held) > 0 {
+				wait = 300 * time.Millisecond // expected to block on the mutex
+			}
+			if _, ok := ctl.waitParkedFor(wait, role, "close:wait", "returned"); !ok {
+				if len(held) > 0 {
+					// an admission is being held inside its critical section: the closer waits for the mutex
+					ev = append(ev, a+":blk")
+					blocked = append(blocked, role)
+					continue
+				}
 				ev = append(ev, a+":hang")
 				hang = true
 				continue
 			}
 			ev = append(ev, a)
+		case "cT": // closer idx tries to finish: released from close:wait if it is there; no error if it cannot
+			role := "c" + strconv.Itoa(idx)
+			ctl.mu.Lock()
+			at := ctl.parked[role]
+			ctl.mu.Unlock()
+			out := "no"
+			if at == "close:wait" {
+				ctl.let(role, "close:wait")
+				if _, ok := ctl.waitParkedFor(300*time.Millisecond, role, "returned"); ok {
+					out = "ret"
+				}
+			} else if at == "returned" {
+				out = "ret"
+			}
+			ev = append(ev, a+":"+out)
 		case "cR":
 			role := "c" + strconv.Itoa(idx)
 			ctl.mu.Lock()
@@ -273,6 +339,58 @@ func runClose(cs *Case) *Result {
 				time.Sleep(50 * time.Microsecond)
 			}
 			ev = append(ev, a+":"+out)
+		case "wP":
+			cm := cmds[idx]
+			role := "w" + strconv.Itoa(cm.conn)
+			ctl.mu.Lock()
+			ctl.holdChecked[role] = true
+			ctl.mu.Unlock()
+			deliver(idx)
+			deadline := time.Now().Add(1500 * time.Millisecond)
+			out := "lost"
+			for time.Now().Before(deadline) {
+				ctl.mu.Lock()
+				p := ctl.parked[role]
+				ctl.mu.Unlock()
+				if p == "admit:checked" {
+					out = "chk"
+					held[role] = true
+					break
+				}
+				if p == "handler:start" {
+					out = "adm" // not held: the schedule point was not passed
+					break
+				}
+				if quiet(cm.conn) {
+					out = "ref"
+					break
+				}
+				time.Sleep(50 * time.Microsecond)
+			}
+			ctl.mu.Lock()
+			delete(ctl.holdChecked, role)
+			ctl.mu.Unlock()
+			ev = append(ev, a+":"+out)
+		case "wG":
+			cm := cmds[idx]
+			role := "w" + strconv.Itoa(cm.conn)
+			ctl.let(role, "admit:checked")
+			delete(held, role)
+			out := "lost"
+			if _, ok := ctl.waitParked(role, "handler:start"); ok {
+				out = "adm"
+			} else if quiet(cm.conn) {
+				out = "ref"
+			}
+			ev = append(ev, a+":"+out)
+			// closers that were waiting for the mutex now get through their critical section
+			for _, cr := range blocked {
+				if _, ok := ctl.waitParked(cr, "close:wait", "returned"); !ok {
+					ev = append(ev, cr+":stuck")
+					hang = true
+				}
+			}
+			blocked = nil
 		case "wF":
 			cm := cmds[idx]
 			role := "w" + strconv.Itoa(cm.conn)
@@ -344,6 +462,28 @@ func runClose(cs *Case) *Result {
 // only when no admitted command is running).
 func genClose(r *rand.Rand, id string) *Case {
 	c := baseCase(id, "close")
+	if r.Intn(6) == 0 {
+		// the admission of a command is held inside `admit` while closers arrive: in the library the
+		// closing check and wg.Add are one critical section, so a Close cannot slip in between
+		c.Extra["cmds"] = "0:q"
+		c.Extra["direct"] = "close"
+		switch r.Intn(5) {
+		case 0:
+			c.Extra["closers"] = "1"
+			c.Extra["sched"] = "wP0,cS0,wG0,wF0,cR0"
+		case 1:
+			c.Extra["closers"] = "2"
+			c.Extra["sched"] = "wP0,cS0,cS1,wG0,wF0,cR1,cR0"
+		case 2:
+			c.Extra["closers"] = "1"
+			c.Extra["sched"] = "cS0,wP0,cR0"
+		default:
+			// the closer tries to return while the admission is still held
+			c.Extra["closers"] = "1"
+			c.Extra["sched"] = "wP0,cS0,cT0,wG0,wF0,cR0"
+		}
+		return c
+	}
 	k := 1 + r.Intn(3)
 	nconn := 1 + r.Intn(2)
 	type cmdT struct {
